@@ -19,10 +19,12 @@ CONSTANTS
   Order <- OrderCacheLate
   CheckAccepts = TRUE
   SimCommits = FALSE
+  NextTwoLoads = FALSE
 SYMMETRY Sym
 INVARIANT VisibleImpliesComplete
 INVARIANT PublishedComplete
 INVARIANT FinalizedMonotonePerReader
+INVARIANT NextIsOneSnapshot
 INVARIANT NoQueryWrites
 PROPERTY QueriesAreReadOnly
 CHECK_DEADLOCK FALSE
